@@ -40,6 +40,9 @@ def make_spec(hist):
                 b.append({"component": c, "bindings": [{"tensor": "A", "init-ranks": ["K", "M"], "final-ranks": ["M", "K"]}] if nonempty and swz else []})
             else:
                 b.append({"component": c, "bindings": [{"op": "mul" if c[0] == "M" else "add"}] if nonempty else []})
+        # the order of the entries of a binding list carries no meaning: the config/prefix entry sits at a varying position
+        cfg_entry = b.pop(0)
+        b.insert((i * 5 + len(b)) % (len(b) + 1) if i % 2 else 0, cfg_entry)
         bind[name] = b
     return {"einsum": {"declaration": decl, "expressions": exprs},
             "mapping": {"loop-order": loop, "spacetime": st},
